@@ -112,7 +112,7 @@ Scale(s, m, r) == CASE s = 0 -> 1
 \* patterns 4..7 add a floating-point magnitude 10^MagExp to every column of the second set (applied by the harness;
 \* cosines, hence everything below, do not depend on it).  Their integer part is pattern IntScale(s).
 \*   4: every column 1e-5      5: one magnitude per component (1e-3, 1e3, 1e-5, 1e-9, 1e5, 1e-3), same in every mode
-\*   6: magnitudes differ between modes and components (1e-8 .. 1e5)      7: first component 1e-9, the others 1
+\*   6: magnitudes differ between modes and components (1e-8 .. 1e5)      7: first component 1e-80, second 1e80, the others 1 (column scales 160 orders apart)
 \* patterns 8, 9: COMPLEX factor sets (correlation_index conjugates; congruence_coefficient / cp_permute_factors are
 \* real-only and not driven).  Row k of mode m of BOTH sets is multiplied by the unit RowPhase(m, k), column j of the
 \* second set by the Gaussian integer ColZ(s, m, j) (8: one per component, made unit-modulus by the harness; 9: differs
@@ -122,7 +122,7 @@ MagExp(s, m, j) == CASE s <= 3 \/ s >= 8 -> 0
                      [] s = 4 -> -5
                      [] s = 5 -> <<-3, 3, -5, -9, 5, -3>>[((j - 1) % 6) + 1]
                      [] s = 6 -> <<-3, 3, -5>>[m] + <<0, -2, 1, 0, -3, 2>>[((j - 1) % 6) + 1]
-                     [] s = 7 -> IF j = 1 THEN -9 ELSE 0
+                     [] s = 7 -> IF j = 1 THEN -80 ELSE IF j = 2 THEN 80 ELSE 0
 MagModeIndependent(s) == s \notin {6, 9}     \* one scalar per stacked column: the stacked correlation index is invariant
 Magnified(s) == s \in 4..7
 Complex(s) == s >= 8
